@@ -82,48 +82,53 @@ def filter_table(ctx, name):
 
 
 def r2(ctx):
-    rep = Report("C12.R2", "loud request => Some(response) on every path; quiet request => loud sibling's response through the right filter; filters: mutations answer only on error, gets only when not a miss", floor=30)
+    rep = Report("C12.R2", "loud request => Some(response) for every outcome of the command; quiet mutation => answered exactly on error; quiet get => silent exactly on a miss; the quiet request runs the same command as its loud sibling", floor=30)
     f = ctx.facts
-    ht = dispatch.handler_table(ctx)
+    rt = dispatch.reply_table(ctx)
     hb = f.one(HANDLER + "::handle_request")
     rep.analysed(hb)
     rep.exhaustive = True
-    loud_calls = {}
-    for variant, rows in ht.items():
-        quiet_of = {q: (l, flt) for l, (q, flt) in dispatch.QUIET_OF.items()}
-        for r in rows:
-            ret = r["ret"]
-            var, pl = variant_of(ret)
-            filt = [o for o in r["other"] if o.name.endswith("into_quiet_mutation") or o.name.endswith("into_quiet_get")]
+    quiet_of = {q: (l, flt) for l, (q, flt) in dispatch.QUIET_OF.items()}
+    cm = dispatch.command_methods(ctx)
+    rep.check(len(cm) >= 8, "command-methods", "%d BinaryHandler methods talk to the storage" % len(cm), "only %d BinaryHandler methods call the storage (8 confirmed)" % len(cm), hb.loc())
+    for variant, row in rt.items():
+        has_cmd = any(cc for cc in row["success"]["calls"])
+        bad = []
+        for case, d in row.items():
+            outs = d["outs"]
+            err = case.startswith("Error")
             if variant in quiet_of:
-                loud, want_filter = quiet_of[variant]
-                ok = len(filt) == 1 and filt[0].name.endswith(want_filter) and tform(ret) == filt[0].result
-                inner = filt[0].args[0] if filt else None
-                rep.check(ok, "quiet:%s" % variant, "%s -> %s(response of %s)" % (variant, want_filter, loud), "quiet request %s returns %s (must be %s applied to the loud sibling's response)" % (variant, short(ret, 100), want_filter), hb.loc())
-                loud_calls.setdefault(loud, {})["quiet"] = (r["calls"], inner)
+                flt = quiet_of[variant][1]
+                if not has_cmd:
+                    want = {"None"}  # QuitQuietly: the (non-error) Quit response is never sent
+                elif flt == "into_quiet_get":
+                    want = {"None"} if case == "Error(NotFound)" else {"Some(same)"}
+                else:
+                    want = {"Some(same)"} if err else {"None"}
+                if outs != want:
+                    bad.append("%s -> %s (expected %s)" % (case, sorted(outs), sorted(want)[0]))
             else:
-                ok = var == "Some" and not filt
-                rep.check(ok, "loud:%s" % variant, "%s -> Some(response)" % variant, "loud request %s returns %s: a non-quiet request must always be answered" % (variant, short(ret, 100)), hb.loc())
-                loud_calls.setdefault(variant, {})["loud"] = (r["calls"], pl)
-    # the quiet arm wraps the same computation as the loud arm
-    for loud, d in sorted(loud_calls.items()):
-        if "loud" in d and "quiet" in d:
-            lc, lresp = d["loud"]
-            qc, qinner = d["quiet"]
-            same_calls = [c.name for c in lc] == [c.name for c in qc] and [tuple(tform(a) for a in c.args) for c in lc] == [tuple(tform(a) for a in c.args) for c in qc]
-            same_resp = True
-            if not lc:
-                same_resp = strip_sites(tform(lresp)) == strip_sites(tform(qinner))
-            rep.check(same_calls and same_resp, "pair:%s" % loud, "quiet arm computes the same response as the loud arm", "the quiet sibling of %s does not compute the same response as the loud arm (calls %s vs %s)" % (loud, [c.name.split("::")[-1] for c in lc], [c.name.split("::")[-1] for c in qc]), hb.loc())
-    # filters
-    ft, fb = filter_table(ctx, "into_quiet_mutation")
-    want = {"Error(NotFound)": {"Some(same)"}, "Error(KeyExists)": {"Some(same)"}, "Error(0x81)": {"Some(same)"}, "Get(hit)": {"None"}, "Set(ok)": {"None"}, "Quit": {"None"}}
-    for c, w in want.items():
-        rep.check(ft[c] == w, "into_quiet_mutation[%s]" % c, "%s -> %s" % (c, sorted(w)[0]), "into_quiet_mutation(%s) gives %s (quiet mutations answer only on error: expected %s)" % (c, sorted(ft[c]), sorted(w)[0]), fb.loc())
-    ft, fb = filter_table(ctx, "into_quiet_get")
-    want = {"Error(NotFound)": {"None"}, "Error(KeyExists)": {"Some(same)"}, "Error(0x81)": {"Some(same)"}, "Get(hit)": {"Some(same)"}}
-    for c, w in want.items():
-        rep.check(ft[c] == w, "into_quiet_get[%s]" % c, "%s -> %s" % (c, sorted(w)[0]), "into_quiet_get(%s) gives %s (quiet gets are silent only on a miss: expected %s)" % (c, sorted(ft[c]), sorted(w)[0]), fb.loc())
+                ok = (outs == {"Some(same)"}) if has_cmd else (len(outs) == 1 and list(outs)[0].startswith("Some(") and list(outs)[0] not in ("Some(same)", "Some(other)", "Some(?)"))
+                if not ok:
+                    bad.append("%s -> %s (expected Some(response))" % (case, sorted(outs)))
+        if variant in quiet_of:
+            rule = "silent only on a miss" if quiet_of[variant][1] == "into_quiet_get" else "answered only on error"
+            rep.check(not bad, "quiet:%s" % variant, "%s: %s, with the command's own response" % (variant, rule), "quiet request %s: %s — a quiet %s must be %s and then carry the command's own response" % (variant, "; ".join(bad), "get" if "get" in quiet_of[variant][1] else "command", rule), hb.loc())
+        else:
+            rep.check(not bad, "loud:%s" % variant, "%s -> Some(response) whatever the outcome" % variant, "loud request %s: %s — a non-quiet request must always be answered, with the command's own response" % (variant, "; ".join(bad)), hb.loc())
+    # the quiet request runs the same command (same method, same arguments) as its loud sibling
+    for q, (loud, _flt) in sorted(quiet_of.items()):
+        if q not in rt or loud not in rt:
+            rep.bad("pair:%s" % loud, "request variant %s or %s is missing" % (loud, q), hb.loc())
+            continue
+
+        def sig(calls):
+            return sorted(set(tuple((c.name, tuple(strip_sites(tform(a)) for a in c.args)) for c in cc) for cc in calls))
+
+        same = all(sig(rt[q][case]["calls"]) == sig(rt[loud][case]["calls"]) for case in rt[q])
+        lc = sig(rt[loud]["success"]["calls"])
+        qc = sig(rt[q]["success"]["calls"])
+        rep.check(same, "pair:%s" % loud, "quiet arm runs the same command as the loud arm", "the quiet sibling of %s does not run the same command with the same arguments as the loud arm (%s vs %s)" % (loud, [[n.split("::")[-1] for n, _a in x] for x in lc], [[n.split("::")[-1] for n, _a in x] for x in qc]), hb.loc())
     return rep
 
 
